@@ -33,10 +33,20 @@ func samVarGen(r *RNG, id string, maxIns int, window bool) *Case {
 		for _, g := range genes {
 			rows = append(rows, gffRowsOf(g)...)
 		}
-		txt, proto := renderGFF(rows, sc.ref, true, r.Bool(), sc.rname)
+		annSeq := sc.ref
+		if r.Chance(1, 3) {
+			// the sequence carried in the ##FASTA section differs from the --reference file (same length): whichever the
+			// command is documented to use - the file when one is given - both routes must use the same one
+			annSeq = mutateSeq(r, sc.ref, symACGT, 1, 6, false)
+			c.Tag("gff-fasta-differs-from-reference-file")
+		}
+		txt, proto := renderGFF(rows, annSeq, true, r.Bool(), sc.rname)
 		c.Set("annfmt", "gff").Set("feats", "").Set("rows", proto).Set("anntext", txt)
+		c.Set("origin", annSeq)
 	}
-	c.Set("origin", sc.ref)
+	if c.Get("origin") == "" {
+		c.Set("origin", sc.ref)
+	}
 	c.SetBool("reffromfile", r.Chance(2, 3))
 	c.SetBool("append", r.Bool())
 	start, end := -1, -1
